@@ -70,7 +70,9 @@ LEVEL_TEXT = ('Proved in Lean for ANY number of session ids, request threads and
               'the unrechecked acquire_lock against one sweeper (F20) and the unrechecked clean_up against two sweepers (C13-F21), '
               'both fixed in /repo; without sweeper steps both acquire_lock variants are safe (memcached lock protocol). '
               'FileSession: mutual exclusion / no lost save or unlink / every mutating file operation by the lock holder, for any '
-              'number of threads, processes, clean_up passes and any lock-timeout placement, relative to the FileLock contract. '
+              'number of threads, processes, clean_up passes, any handler scripts (delete / regenerate inside the lock), any '
+              'lock-timeout placement and any fault injected into the sweep (the lock is free after a sweep that died inside '
+              'its locked region), relative to the FileLock contract (lock identity = the lock file). '
               'Request level: for every fault plan (locking mode x backend x handler script incl. regenerate x outcome x '
               'plain/generator/streamed body completed, abandoned or raising x failing storage x ANY user hooks) with a handler that '
               'does not re-acquire / over-release, the lock is released once close() has run. '
@@ -553,13 +555,20 @@ def wsgi_systematic(n_preempt_points=14):
 # ------------------------------------------------------------------------------------------------
 def fsched_oracle(case, toks, obs):
     bad = []
+    if obs['max_occ'] > 1:
+        bad.append(('%d actors held the lock of one session at the same time (%s): the lock file was replaced under '
+                    'its holder (unlinked by %s)' % (obs['max_occ'], obs['all_holders'] or 'see schedule',
+                                                    obs['lockfile_unlinked'] or '?'), 'fsched:double_holder'))
     if obs['unlocked_ops']:
         bad.append(('a mutating / destructive operation on the session file ran while the actor did not hold '
                     'the session lock: %s' % obs['unlocked_ops'][:3],
                     'fsched:unlocked_file_op:' + obs['unlocked_ops'][0].split('(')[0].split(':', 1)[1]))
     if obs['lost']:
         bad.append(('lost update on the file backend: %s' % obs['lost_why'], 'fsched:lost_update'))
+    injected = [k for a, k in obs.get('faults_consumed', []) if a == 'S' and k in (1, 2)]
     for name, exc in sorted(obs['errors'].items()):
+        if name == 'S' and injected:
+            continue        # the injected fault (unlink failing / expiry not comparable) leaves clean_up: expected
         who = 'clean_up()' if name == 'S' else 'request thread %s' % name
         bad.append(('%s raised %s' % (who, exc), 'fsched:raised:%s' % ('sweeper' if name == 'S' else 'request')))
     if obs.get('livelock'):
@@ -571,11 +580,14 @@ def fsched_oracle(case, toks, obs):
     if obs['blocked']:
         bad.append(('request(s) %s blocked forever on the session file lock (held by %s)'
                     % (obs['blocked'], obs['held_by']), 'fsched:blocked_forever'))
-    elif obs['held_by'] and not obs['unfinished']:
-        bad.append(('file lock still held by %s after everybody ended' % obs['held_by'], 'fsched:lock_leak'))
+    elif obs['all_holders'] and not obs['unfinished']:
+        bad.append(('file lock still held by %s after everybody ended%s'
+                    % (obs['all_holders'], ' (the sweep died of the injected fault holding it)' if injected else ''),
+                    'fsched:lock_leak'))
     f = case.get('file')
-    if f is not None and f[1] >= 50 and not any(t.startswith('K') for t in toks) and not obs['unfinished'] \
-            and not obs['errors']:
+    plain = all(sc == 'm' for sc in (case.get('scripts') or ['m']))
+    if f is not None and f[1] >= 50 and not any(t[0] in 'KF' for t in toks) and not obs['unfinished'] \
+            and not obs['errors'] and plain:
         want = '%d:' % (f[0] + obs['saves'])
         if not obs['file'].startswith(want):
             bad.append(('file backend: stored counter %s, expected %d (= %d + %d saves)'
@@ -593,7 +605,7 @@ def check_fsched(ctx, items, compare=True):
         full.pop('init', None)
         acted, prev = set(), o0
         for t, o, _ in trace:
-            if o != prev and t[0] not in 'KXP':
+            if o != prev and t[0] not in 'KXPF':
                 acted.add(t)
             prev = o
         ctx.case(full, nontrivial=len(acted) >= 2, key=json.dumps(full, sort_keys=True))
@@ -605,6 +617,10 @@ def check_fsched(ctx, items, compare=True):
             ctx.count('fsched:lock_timeout_expired')
         if any(t.startswith('P') for t in toks):
             ctx.count('fsched:unsuccessful_poll')
+        for a, k in obs.get('faults_consumed', []):
+            ctx.count('fsched:sweep_fault=%s' % {0: 'open/load', 1: 'expiry-comparison', 2: 'unlink'}[k])
+        for sc in case.get('scripts') or []:
+            ctx.count('fsched:script=%s' % (sc or '-'))
         for what, sig in fsched_oracle(case, toks, obs):
             ctx.oracle_fail(full, what, sig)
         if model is not None:
@@ -623,9 +639,11 @@ def check_fsched(ctx, items, compare=True):
 
 
 def _fenum_chunk(args):
-    name, file0, prefix, order, bound = args
+    name, file0, prefix, order, bound = args[:5]
     items = []
     case = {'kind': 'fsched', 'n': 2, 'file': file0, 'init': name}
+    if len(args) > 5:
+        case['scripts'] = args[5]
     for o, pre in enum_policies(['0', '1', 'S'], bound, 22):
         if o != order:
             continue
@@ -639,13 +657,21 @@ def fsched_stream(ctx, n_random, preempt_bound, compare=True):
     for _ in range(n_random):
         case = FS.gen_random(ctx.rng)
         items.append((case,) + FS.run_case(case))
-    for _ in range(max(30, n_random // 3)):
-        case = FS.gen_timeout(ctx.rng)
-        items.append((case,) + FS.run_case(case))
+    for g in (FS.gen_timeout, FS.gen_fault, FS.gen_delete):
+        for _ in range(max(30, n_random // 3)):
+            case = g(ctx.rng)
+            items.append((case,) + FS.run_case(case))
     check_fsched(ctx, items, compare)
     chunks = [(name, file0, prefix, order, preempt_bound)
               for name, file0, prefix in FS.INITS[:3]
               for order in itertools.permutations(['0', '1', 'S'])]
+    for order in itertools.permutations(['0', '1', 'S']):
+        # a request deletes / regenerates inside the lock and goes on; the sweep fails inside its locked region
+        chunks.append(('delete', [5, 100], [], order, preempt_bound, ['mdm', 'm']))
+        chunks.append(('regen', [5, 100], [], order, 1, ['mgm', 'm']))
+        chunks.append(('fault-unlink', [5, 0], ['K3', 'F2'], order, preempt_bound))
+        chunks.append(('fault-compare', [5, 0], ['K3', 'F1'], order, 1))
+        chunks.append(('fault-load', [5, 100], ['F0'], order, 1))
     results = common.parallel_map(_fenum_chunk, chunks, procs=8 if ctx.quick() else None)
     count = 0
     for its in results:
